@@ -137,7 +137,7 @@ type outcome struct {
 	base  map[string]any
 }
 
-const runTimeout = 20 * time.Second
+const runTimeout = 90 * time.Second
 
 // guarded turns a panic that escapes the real handler into that run's recorded error.
 func guarded(f func() error) (err error) {
